@@ -25,6 +25,7 @@ type hopForm struct {
 	Pos     string
 	XDesc   string
 	ExtraLT int64 // value form: additional `v < ExtraLT` requirement (xpair1: 255), 0 if none
+	Drop    *ssa.BasicBlock // the block that drops the message when the guard fires
 }
 
 // findHopGuard locates the comparison against the ttl bound in fn and normalises it.
@@ -81,7 +82,7 @@ func findHopGuard(p *Prog, fn *ssa.Function) (*hopForm, string) {
 	if dropIdx == 1 {
 		op = negOp[op] // normalise to "drop when x OP ttl"
 	}
-	hf := &hopForm{Op: op, Bound: Desc(y), Pos: p.InstrPos(iff), XDesc: Desc(x)}
+	hf := &hopForm{Op: op, Bound: Desc(y), Pos: p.InstrPos(iff), XDesc: Desc(x), Drop: iff.Block().Succs[dropIdx]}
 	// strip conversions
 	xv := x
 	for {
@@ -183,6 +184,7 @@ func runC09(p *Prog, r *Report) {
 			r.Check(a.Kind == b.Kind && a.Offset == b.Offset, R, "twins/"+pair[0]+"~"+pair[1], b.Pos, "cooked and raw admit the same hop counts", fmt.Sprintf("cooked admits ttl%+d words, raw admits ttl%+d: a device chain and a direct cooked socket disagree", a.Offset, b.Offset))
 		}
 	}
+	xstarDropPredicate(p, r, R)
 	// xpair1's additional 255 cap
 	if f := q.Fn(R, "protocol/xpair1", "pipe", "receiver"); f.OK() {
 		// the drop block is reached iff hops >= 255 || hops > ttl
@@ -361,5 +363,34 @@ func runC09(p *Prog, r *Report) {
 			}
 		}
 		r.Check(okr, R, "forwarder-exits-on-error-only", fw.Pos(), "returns only on a receive or send error", "forwarder can stop for another reason")
+	}
+}
+
+// xstarDropPredicate: the xstar receiver drops a message iff it is shorter than the 4-byte
+// hop header, its first three header bytes are not zero, or its hop count has reached ttl
+// (a message consisting of exactly the header — empty payload — is valid).
+func xstarDropPredicate(p *Prog, r *Report, R string) {
+	q := NewQ(p, r)
+	f := q.Fn(R, "protocol/xstar", "pipe", "receiver")
+	if !f.OK() {
+		return
+	}
+	hf, why := findHopGuard(p, f.fn)
+	if hf == nil || hf.Drop == nil {
+		r.Unk(R, "protocol/xstar/receiver/drop-predicate", f.Pos(), "cannot locate the drop block: "+why)
+		return
+	}
+	b := "recv.p.RecvMsg().Body"
+	dom := map[string][]int64{"len(" + b + ")": {0, 3, 4, 5}, b + "[0]": {0, 1}, b + "[1]": {0, 1}, b + "[2]": {0, 1}, b + "[3]": {0, 1, 2, 3}, "recv.s.ttl": {1, 2, 3}}
+	res := ComparePred(hf.Drop, dom, []string{"recv.p.RecvMsg() != nil"}, func(env map[string]int64) bool {
+		return env["len("+b+")"] < 4 || env[b+"[0]"] != 0 || env[b+"[1]"] != 0 || env[b+"[2]"] != 0 || env[b+"[3]"] >= env["recv.s.ttl"]
+	})
+	switch {
+	case res.Undec != "":
+		r.Unk(R, "protocol/xstar/receiver/drop-predicate", hf.Pos, "cannot evaluate the drop predicate: "+res.Undec)
+	case !res.OK:
+		r.Bad(R, "protocol/xstar/receiver/drop-predicate", hf.Pos, "xstar drops (or forwards) the wrong messages: drop must be len<4 || hdr[0..2]!=0 || hdr[3]>=ttl; "+res.Counter)
+	default:
+		r.OK(R, "protocol/xstar/receiver/drop-predicate", hf.Pos, fmt.Sprintf("drop iff len<4 || hdr[0..2]!=0 || hops>=ttl on %d assignments (a bare 4-byte header is delivered)", res.Combos))
 	}
 }
